@@ -8,3 +8,6 @@ import RustCcModel.Properties.C12
 #print axioms RustCc.C12.unwrap_err_in_callbacks
 #print axioms RustCc.C12.finAgain_panics_in_callbacks
 #print axioms RustCc.C12.raise_keeps_heap
+#print axioms RustCc.C12.tracing_flag_of_every_callback
+#print axioms RustCc.C12.not_tracing_unless_collector_on_top
+#print axioms RustCc.C12.tracing_when_pass_on_top
